@@ -21,7 +21,7 @@ def run(ctx):
     ctx.build(["vh-gemm"])
     if ctx.replay:
         return replay(ctx)
-    n = 90 if ctx.quick else 1000
+    n = 90 if ctx.quick else 2500
     chunk = 90 if ctx.quick else 250
     bad, traces, totals = [], [], {}
     # the harness is deterministic per case index; split into chunks to bound TLC's memory
